@@ -504,7 +504,18 @@ pub fn short_row(s: u8, d1: u8, d2: u8) -> Vec<i64> {
     let again_f = obs(&mut acc, &fo);
     decoy(&mut acc, 0xf8, d2, d1);
     let again_s = obs(&mut acc, &st);
-    flags2[6] = (again_r == vec_r && again_f == vec_r && again_s == vec_s) as i64;
+    // decoys RELATED to the message: its mirror image (data bytes swapped), its neighbour on the next channel /
+    // status, a one-bit neighbour in the last data byte - a memo whose key is built carelessly confuses exactly these
+    decoy(&mut acc, s, d2, d1);
+    let again_r2 = obs(&mut acc, &raw);
+    decoy(&mut acc, s, d2, d1);
+    let again_f2 = obs(&mut acc, &fo);
+    decoy(&mut acc, s ^ 0x01, d1, d2);
+    let again_s2 = obs(&mut acc, &st);
+    decoy(&mut acc, s, d1, d2 ^ 0x01);
+    let again_r3 = obs(&mut acc, &raw);
+    flags2[6] = (again_r == vec_r && again_f == vec_r && again_s == vec_s
+        && again_r2 == vec_r && again_f2 == vec_r && again_s2 == vec_s && again_r3 == vec_r) as i64;
     flags2[7] = flag(&mut acc, || RawShortMessage::try_from(t).ok() == RawShortMessage::from_bytes(t).ok() && raw.clone() == raw);
     row.push(acc.allocs as i64);
     row.extend_from_slice(&vec_r);
